@@ -4,7 +4,7 @@
   (`runChar`, `upN`, `down`, `acctran`, `deltran` of Model/C12.lean); optimality is
   measured against ALL labellings (`LT`, `fits`, `changes` of Spec/C12.lean).
 -/
-import Gotree.Lemmas.C12Cli
+import Gotree.Lemmas.C12Subdiv
 
 namespace Gotree.C12
 open Gotree
@@ -350,6 +350,37 @@ theorem steps_root_invariant (k : Nat) (tv : String → Vec) (algo : Algo) (hk :
     obtain ⟨h1, hr', ht', hp'⟩ := steps_moveRoot k tv algo t hk hr ht i p hp
     simp only [rerootPath]
     rw [steps_root_invariant k tv algo hk p (moveRoot t i) hr' ht' hp', h1]
+
+/-- A node with one child inserted on any branch (`subdivide`) changes neither the number of steps nor the
+    hypotheses. -/
+theorem steps_subdivide (k : Nat) (tv : String → Vec) (algo : Algo) (t : T) (q : List Nat)
+    (hk : 0 < k) (hr : rootOk t = true) (ht : tipsOk k tv t = true) :
+    (runChar k tv algo (subdivide t q)).1 = (runChar k tv algo t).1 ∧
+    rootOk (subdivide t q) = true ∧ tipsOk k tv (subdivide t q) = true := by
+  have hr' : rootOk (subdivide t q) = true := by
+    match t, q, hr with
+    | t, [], hr => simpa [subdivide] using hr
+    | .node d p ks, i :: q, hr =>
+      simp only [subdivide, rootOk, T.kids_node, subdivideL_length] at hr ⊢
+      exact hr
+  have ht' : tipsOk k tv (subdivide t q) = true := by
+    match t, q, ht with
+    | t, [], ht => simpa [subdivide] using ht
+    | .node d p ks, i :: q, ht =>
+      simp only [subdivide, tipsOk, T.kids_node, leavesL_subdivide] at ht ⊢
+      exact ht
+  refine ⟨?_, hr', ht'⟩
+  rw [steps_eq_minCost k tv algo _ hk hr' ht', steps_eq_minCost k tv algo t hk hr ht]
+  exact minCost_subdivide k tv hk t q
+
+/-- Rooting ON A BRANCH: insert a node on the branch above the node addressed by `q`, then move the root there
+    (or anywhere else along inner nodes): the reported number of steps is that of the original tree. -/
+theorem steps_root_on_branch (k : Nat) (tv : String → Vec) (algo : Algo) (t : T) (q p : List Nat)
+    (hk : 0 < k) (hr : rootOk t = true) (ht : tipsOk k tv t = true)
+    (hp : okPath (subdivide t q) p = true) :
+    (runChar k tv algo (rerootPath (subdivide t q) p)).1 = (runChar k tv algo t).1 := by
+  obtain ⟨h1, hr', ht'⟩ := steps_subdivide k tv algo t q hk hr ht
+  rw [steps_root_invariant k tv algo hk p (subdivide t q) hr' ht' hp, h1]
 
 /-- When DELTRAN reports exactly one state at every node, the labelling it spells out respects the
     tip sets and is itself most parsimonious. -/
@@ -809,6 +840,10 @@ theorem random_steps_optimal (k : Nat) (tv : String → Vec) (algo : Algo) (t : 
     ∃ l : LT, fits k tv t l = true ∧ l.changes = (runCharR k tv algo t st).1 := by
   have h := uppass_optimal k tv algo t hk hr ht
   rw [runChar_steps k tv algo t hr] at h
+  have hlen : ¬ t.kids.length = 1 := by
+    simp only [rootOk, decide_eq_true_eq] at hr; omega
+  have he : (runCharR k tv algo t st).1 = upN k tv t := by simp [runCharR, hlen]
+  rw [he]
   exact h
 
 /-- DOWNPASS / DELTRAN with random resolution: every state reported at an inner node occurs there in
@@ -930,6 +965,53 @@ example : (⟨"t0", '\t', "A"⟩ : Entry).ok :=
   ⟨Or.inl rfl, by unfold cleanChars; decide, by unfold cleanChars; decide⟩
 
 example : (splitCols "a,b,c".toList).length ≠ 2 ∧ (splitCols "".toList).length ≠ 2 := by decide
+
+/- ## a tree rooted at a tip (finding ParsimonyRootIsTip) -/
+
+theorem rootOk_rootAtNeighbour (t : T) (h : tipRooted t = true) : rootOk (rootAtNeighbour t) = true := by
+  match t, h with
+  | .node d p [(e, .node dc pc [])], h => simp [tipRooted] at h
+  | .node d p [(e, .node dc pc (x :: xs))], _ => simp [rootAtNeighbour, rootOk]
+  | .node d p [], h => simp [tipRooted] at h
+  | .node d p (_ :: _ :: _), h => simp [tipRooted] at h
+
+/-- For the property a tree rooted at a tip is the same tree seen from the root's neighbour (`rootAtNeighbour t`,
+    which is `moveRoot t 0`; the old root is one of its tips).  The steps computed from there — what `runChar` returns
+    as soon as the switch `rootTipFixedInRepo` follows the proposed fix — are optimal. -/
+theorem root_is_tip_fixed_optimal (k : Nat) (tv : String → Vec) (algo : Algo) (t : T)
+    (hk : 0 < k) (htr : tipRooted t = true) (ht : tipsOk k tv (rootAtNeighbour t) = true) :
+    (rootTipFixedInRepo = true → runChar k tv algo t = runCharAtNeighbour k tv algo t) ∧
+    (∀ l : LT, fits k tv (rootAtNeighbour t) l = true → (runCharAtNeighbour k tv algo t).1 ≤ l.changes) ∧
+    ∃ l : LT, fits k tv (rootAtNeighbour t) l = true ∧ l.changes = (runCharAtNeighbour k tv algo t).1 := by
+  have hr := rootOk_rootAtNeighbour t htr
+  refine ⟨?_, ?_⟩
+  · intro hfix
+    have hlen : t.kids.length = 1 := by
+      match t, htr with
+      | .node d p [(e, c)], _ => rfl
+      | .node d p [], h => simp [tipRooted] at h
+      | .node d p (_ :: _ :: _), h => simp [tipRooted] at h
+    simp [runChar, hlen, hfix, htr]
+  · have h := uppass_optimal k tv algo (rootAtNeighbour t) hk hr ht
+    rw [runChar_steps k tv algo _ hr] at h
+    exact h
+
+def tipRootedWitness : T :=
+  .node ⟨"r", []⟩ 0 [(EdgeD.blank, .node ⟨"", []⟩ 0 [(EdgeD.blank, T.leaf "a"), (EdgeD.blank, T.leaf "b"), (EdgeD.blank, T.leaf "c")])]
+
+def tipRootedStates : String → Vec
+  | "a" => [1, 0, 0] | "b" => [0, 1, 0] | "c" => [0, 0, 1] | _ => [1, 0, 0]
+
+/-- Negative theorem, finding ParsimonyRootIsTip: on `((a,b,c))r;` with states A, B, C and r = A the pinned
+    behaviour reports 0 steps and leaves every node but the root without state, while 2 changes are needed. -/
+theorem root_is_tip_pinned_fails :
+    tipRooted tipRootedWitness = true ∧
+    runCharRootTipPinned 3 tipRootedStates tipRootedWitness = (0, [[1, 0, 0], [0, 0, 0], [0, 0, 0], [0, 0, 0], [0, 0, 0]]) ∧
+    minCost 3 tipRootedStates (rootAtNeighbour tipRootedWitness) = 2 ∧
+    tipsOk 3 tipRootedStates (rootAtNeighbour tipRootedWitness) = true ∧
+    (runCharAtNeighbour 3 tipRootedStates .downpass tipRootedWitness).1 = 2 ∧
+    rootAtNeighbour tipRootedWitness == moveRoot tipRootedWitness 0 := by
+  decide
 
 /- ## finding AsrNonIupacCharEmptySet (asr/parsimony.go:88), as a theorem about the model -/
 
@@ -1088,6 +1170,12 @@ example : (sub exTree [0, 1]).map (fun c => (c.name, c.kids.length)) = some ("b"
   decide
 
 example : okPath exTree [0] = true ∧ (runChar 3 exTv .acctran (rerootPath exTree [0])).1 = 3 := by
+  decide
+
+/- rooting on the branch above tip `b` (path [0,1]): the new node is reached by the same path -/
+example : okPath (subdivide exTree [0, 1]) [0, 1] = true ∧
+    (rerootPath (subdivide exTree [0, 1]) [0, 1]).kids.length = 2 ∧
+    (runChar 3 exTv .acctran (rerootPath (subdivide exTree [0, 1]) [0, 1])).1 = 3 := by
   decide
 
 def exTv2 : String → Vec
